@@ -126,3 +126,18 @@ package astvalidation
 //@     invariant operationTypeRef >= 0 - 1 && operationTypeRef < len(v.operation.Types) && definitionTypeRef >= 0 - 1 && definitionTypeRef < len(v.definition.Types)
 //@     invariant pin1 ==> operationTypeRef == o0 && definitionTypeRef == d0
 //@     invariant pin2 ==> (operationTypeRef == o0 && definitionTypeRef == d0) || (operationTypeRef == oi && definitionTypeRef == di)
+
+// C04, values coercible: every item of a list literal is checked against the item type of the list type as it is
+// written - for [T!] that is T!, so that a null item (and a nullable variable as an item) is rejected.
+//@ func valuesVisitor.valueSatisfiesListType
+//@   requires v != nil && v.operation != nil && v.definition != nil
+//@   let item0 = v.definition.Types[definitionTypeRef].OfType
+//@   at call valuesVisitor.valueSatisfiesInputValueDefinitionType: assert {list.items.are.checked.against.the.item.type.non.null.included} arg2 == item0
+//@   modifies *, count(*)
+//@   safety no-bounds
+//@ func valuesVisitor.valueSatisfiesOperationListType
+//@   requires v != nil && v.operation != nil && v.definition != nil
+//@   let item0 = listItemType
+//@   at call valuesVisitor.valueSatisfiesOperationType: assert {default.value.list.items.are.checked.against.the.item.type.non.null.included} arg2 == item0
+//@   modifies *, count(*)
+//@   safety no-bounds
